@@ -270,3 +270,10 @@ func Harness_C01_r_not_chain() {
 	verifAssert(t.E0 == (!a && b) && t.E1 == ((!a || !b) && a) && t.E2 == (!(c > 1) && b), "r_not_chain: not applies to one term; && and || share a rank and group to the left")
 	verifCover("end")
 }
+
+func Harness_C01_r_neq_empty() {
+	xs := symInts("xs", maxLenEnv())
+	t := r_neq_empty(xs)
+	verifAssert(t.E0 && !t.E1, "r_neq_empty: an empty Filter result = slice.New (), and <> is its negation")
+	verifCover("end")
+}
